@@ -123,6 +123,11 @@ func CanEncode(name string, phys int) bool {
 	if name == "" || name == "dict" {
 		return true
 	}
+	if name == "rle" && phys != ref.Boolean {
+		// the hybrid RLE encoding is a data encoding only for BOOLEAN (spec);
+		// the library accepts the option for INT32 but fails at the first page.
+		return false
+	}
 	e := Encoding(name)
 	switch phys {
 	case ref.Boolean:
@@ -387,4 +392,37 @@ func NormEqual(l ref.Leaf, a, b ref.LV) bool {
 	default:
 		return string(a.B) == string(b.B)
 	}
+}
+
+// RowsToTrees assembles each parquet row back into a value tree.
+func RowsToTrees(root *ref.Node, cols []ref.Column, rows []parquet.Row) ([]ref.V, error) {
+	out := make([]ref.V, len(rows))
+	for i, row := range rows {
+		s, err := Streams(cols, []parquet.Row{row})
+		if err != nil {
+			return nil, fmt.Errorf("row %d: %w", i, err)
+		}
+		for c := range s {
+			if len(s[c]) == 0 {
+				return nil, fmt.Errorf("row %d: no value for column %d (%s)", i, c, strings.Join(cols[c].Path, "."))
+			}
+			if s[c][0].Rep != 0 {
+				return nil, fmt.Errorf("row %d column %d: first repetition level is %d", i, c, s[c][0].Rep)
+			}
+			for k, e := range s[c] {
+				if e.Rep > cols[c].MaxRep || e.Def > cols[c].MaxDef || (k > 0 && e.Rep == 0) {
+					return nil, fmt.Errorf("row %d column %d entry %d: invalid levels r%d d%d (max r%d d%d)", i, c, k, e.Rep, e.Def, cols[c].MaxRep, cols[c].MaxDef)
+				}
+				if e.Null != (e.Def < cols[c].MaxDef) {
+					return nil, fmt.Errorf("row %d column %d entry %d: null=%v but definition level %d of %d", i, c, k, e.Null, e.Def, cols[c].MaxDef)
+				}
+			}
+		}
+		v, err := ref.Assemble(root, s)
+		if err != nil {
+			return nil, fmt.Errorf("row %d: %w", i, err)
+		}
+		out[i] = v
+	}
+	return out, nil
 }
